@@ -120,7 +120,8 @@ CHECKS.update({
                 'indices -4..3, rotate -3..4, comparisons, reopen, copy, '
                 'pickle, size_limit=0) must give the same result, exception '
                 'class, contents and maxlen as collections.deque; concurrent '
-                'append/pop programs must be linearizable.',
+                'append/pop programs must be linearizable; iterables that '
+                'raise after yielding items keep what was consumed.',
                 note='maxlen is not persisted: reopen passes the same maxlen',
                 ref='§3 C11'),
     'C12': dict(engine='SEQ+SCHED', tech='explicit-state BFS differential '
@@ -231,7 +232,9 @@ CHECKS.update({
                 'the end state of every interleaving of file-handling '
                 'operation pairs is audited: len = rows, size = sum of file '
                 'sizes, every referenced file exists with its size, no '
-                'unreferenced file, check() silent.',
+                'unreferenced file, check() silent; writes with a key '
+                'that cannot be encoded and a file-backed value leave '
+                'nothing behind.',
                 note='a fault injected into a file removal leaves a file the '
                 'library cannot delete (waived for that fault only); failing '
                 'COMMIT/ROLLBACK not modelled', ref='§3 C08'),
@@ -313,7 +316,9 @@ CHECKS.update({
                 'golden v5.6.3 directories (Cache, queue, FanoutCache with '
                 'recorded shards, Deque, Index, JSONDisk) is read through '
                 'every accessor; two handles resetting one setting in '
-                'turn agree on the last value.',
+                'turn agree on the last value; rows keyed with the JSONDisk '
+                'key encodings recorded from the pinned commit are found; '
+                'creating a bounded Deque handle never removes items.',
                 note='Disk class is an argument, not a stored setting',
                 ref='§3 C18'),
 })
